@@ -199,7 +199,7 @@ Definition rf_frames (p : rf) (data : list Z) (bs : list Z) : res (list frame * 
 Definition build_internal (p : rf) (data : list Z) (base : Z) (bs us : list Z) : res (list wframe * list Z * list Z) :=
   _ <- check_bounds p ;;
   '(fl, bs3) <- rf_frames p data bs ;;
-  dry <- build data 0 fl ;;
+  dry <- build data base fl ;; (* the dry run measures with the real base offset *)
   '(fl2, bs4) <- padding p (rfLen p - zlen (encode dry)) bs3 fl ;;
   '(fl3, us') <- shuffle fl2 us ;;
   ws <- build data base fl3 ;;
